@@ -13,6 +13,7 @@ VARIABLES tid, l,
           phase,     \* [env -> "idle" | "running" | "ended"]
           lastObs,   \* [env -> tag the environment returned last]
           queue,     \* [env -> Seq of produced transitions not yet stored]
+          kept,      \* Seq of all transitions kept so far (add events, in order)
           autoq,     \* [env -> Seq of rows a vector environment produced for its auto-reset calls (NEXT_STEP mode)]
           pend,      \* [env -> [src, act]] pending action choice
           executed, epsDone,
@@ -24,7 +25,7 @@ VARIABLES tid, l,
           dirty,     \* targets whose online counterpart (cfg.pairs) changed since the target last changed
           viol       \* set of <<position, clause>>
 
-vars == <<tid, l, phase, lastObs, queue, autoq, pend, executed, epsDone, updates, prevEv, callStart, iters, seg, dirty, viol>>
+vars == <<tid, l, phase, lastObs, queue, kept, autoq, pend, executed, epsDone, updates, prevEv, callStart, iters, seg, dirty, viol>>
 
 T == Traces[tid]
 C == T.cfg
@@ -37,6 +38,7 @@ Init == /\ tid \in 1..Len(Traces) /\ l = 1
         /\ lastObs = [e \in 0..(Traces[tid].cfg.nenvs - 1) |-> NoTag]
         /\ queue = [e \in 0..(Traces[tid].cfg.nenvs - 1) |-> <<>>]
         /\ autoq = [e \in 0..(Traces[tid].cfg.nenvs - 1) |-> <<>>]
+        /\ kept = <<>>
         /\ pend = [e \in 0..(Traces[tid].cfg.nenvs - 1) |-> [src |-> "none", act |-> "none"]]
         /\ executed = 0 /\ epsDone = 0 /\ updates = 0 /\ prevEv = "none" /\ viol = {}
         /\ dirty = {} /\ callStart = 0 /\ iters = 0 /\ seg = [open |-> FALSE, changed |-> {}, stepIdx |-> 0, iter |-> 0]
@@ -121,6 +123,9 @@ Bump == /\ l' = l + 1 /\ prevEv' = E.ev /\ UNCHANGED tid
         /\ updates' = IF Changed \cap SetOf(C.trained) # {} THEN updates + 1 ELSE updates
         /\ iters' = IF E.ev = "sample" THEN iters + 1 ELSE iters
         /\ callStart' = IF E.ev = "inner_call" THEN executed ELSE callStart
+        /\ kept' = IF E.ev = "add" /\ ~E.auto
+                   THEN Append(kept, [obs |-> E.obs, act |-> E.act, r |-> E.r4, next |-> E.next, term |-> E.term])
+                   ELSE kept
         /\ dirty' = (dirty \cup {t \in Paired : OnlineOf(t) \cap Changed # {}}) \ (Changed \cap SetOf(C.targets))
         /\ seg' = IF E.ev = Opener
                   THEN [open |-> TRUE, changed |-> {}, iter |-> IF Opener = "sample" THEN iters + 1 ELSE iters,
@@ -229,14 +234,23 @@ EvInnerRet ==
   /\ Fail(Common \cup (IF E.n >= 0 /\ E.n # E.start + (executed - callStart) THEN {"InnerReturnedCount"} ELSE {}))
   /\ UNCHANGED <<phase, lastObs, queue, autoq, pend, executed, epsDone>>
 
+(* what a fixed-capacity buffer holds at the end of the run: exactly the most recent min(n, capacity) kept transitions *)
+EvFinalBuffer ==
+  /\ E.ev = "final_buffer"
+  /\ LET rows == {[obs |-> E.rows[i].obs, act |-> E.rows[i].act, r |-> E.rows[i].r4, next |-> E.rows[i].next, term |-> E.rows[i].term] : i \in 1..Len(E.rows)}
+         m == IF Len(kept) < E.n THEN Len(kept) ELSE E.n
+         recent == {kept[i] : i \in (Len(kept) - m + 1)..Len(kept)}
+     IN Fail(Common \cup (IF rows # recent \/ Len(E.rows) # m THEN {"FinalBufferFaithful"} ELSE {}))
+  /\ UNCHANGED <<phase, lastObs, queue, autoq, pend, executed, epsDone>>
+
 (* events without protocol content (buffer sampling, logger calls ...): frame clauses only *)
 EvOther ==
-  /\ E.ev \notin {"reset", "explore", "policy", "step", "add", "ret", "inner_call", "inner_ret"}
+  /\ E.ev \notin {"reset", "explore", "policy", "step", "add", "ret", "inner_call", "inner_ret", "final_buffer"}
   /\ Fail(Common)
   /\ UNCHANGED <<phase, lastObs, queue, autoq, pend, executed, epsDone>>
 
 Next == /\ l <= Len(T.events)
-        /\ (EvReset \/ EvExplore \/ EvPolicy \/ EvStep \/ EvAdd \/ EvRet \/ EvInnerCall \/ EvInnerRet \/ EvOther)
+        /\ (EvReset \/ EvExplore \/ EvPolicy \/ EvStep \/ EvAdd \/ EvRet \/ EvInnerCall \/ EvInnerRet \/ EvFinalBuffer \/ EvOther)
         /\ Bump
 
 (* verdict lines: one per trace, printed when the trace is consumed *)
